@@ -125,7 +125,8 @@ def h_wf_conversion(ctx, fmt="wfn", case="aminusb"):
 
 
 def jobs(tier):
-    out = [j for j in c02.jobs(tier, prop="C09") if "twin" not in j["name"] and "touch" not in j["name"]]
+    out = [j for j in c02.jobs(tier, prop="C09") if "twin" not in j["name"] and "touch" not in j["name"]
+           and (tier != "quick" or j["params"].get("natom", 0) <= 1000)]
     for fmt in ("fchk", "molden", "molekel", "wfn", "wfx"):
         for case in ("plain", "aminusb", "aminusb-zero", "generalized", "SP"):
             out.append(job("C09", f"wf-conversion[{fmt},{case}]", "harness.c09", "h_wf_conversion", dict(fmt=fmt, case=case),
